@@ -166,12 +166,23 @@ Proof.
     rewrite utf8_len_app. unfold utf8_len at 2. simpl. unfold utf8_len1. rewrite Hc. f_equal. lia.
 Qed.
 
-(* per item, independent of the position: the token's end is on its start line, UTF-8 length of the
-   value to the right; a tight token's value is its lexeme and consists of plain characters *)
+Lemma utf8_len_plain ch : forallb plain ch = true -> utf8_len ch = lenN ch.
+Proof.
+  induction ch as [|c ch IH]; intro H; [reflexivity|]. simpl in H. apply andb_true_iff in H as [H1 H2].
+  unfold plain in H1. apply andb_true_iff in H1 as [Hc _].
+  unfold utf8_len in *. cbn [fold_right]. rewrite (IH H2), lenN_cons. unfold utf8_len1. rewrite Hc. lia.
+Qed.
+
+Lemma lcpos_plain_chars pre ch : forallb plain ch = true ->
+  lcpos (pre ++ ch) = mkPos (pline (lcpos pre)) (pcol (lcpos pre) + lenN ch).
+Proof. intro H. rewrite (lcpos_plain pre ch H), (utf8_len_plain ch H). reflexivity. Qed.
+
+(* per item, independent of the position: the token's end is on its start line, the number of characters of the
+   value to the right (since /repo f444e80; UTF-8 length before); a tight token's value is its lexeme and consists of plain characters *)
 Definition item_ok2 (it : item) : Prop :=
   match it with
   | ITok t ch =>
-      rend (trange t) = mkPos (pline (tstart t)) (pcol (tstart t) + utf8_len (tval t)) /\
+      rend (trange t) = mkPos (pline (tstart t)) (pcol (tstart t) + lenN (tval t)) /\
       (tight t = true -> ch = tval t /\ forallb plain ch = true)
   | IErr e _ => rend (erange e) = mkPos (pline (rstart (erange e))) (pcol (rstart (erange e)) + 1)
   | IWs _ => True
@@ -179,7 +190,7 @@ Definition item_ok2 (it : item) : Prop :=
 
 Lemma create_token_end st off ty v :
   rend (trange (create_token st off ty v)) =
-  mkPos (pline (tstart (create_token st off ty v))) (pcol (tstart (create_token st off ty v)) + utf8_len v).
+  mkPos (pline (tstart (create_token st off ty v))) (pcol (tstart (create_token st off ty v)) + lenN v).
 Proof. reflexivity. Qed.
 
 Lemma tight_ty st off ty v : tight (create_token st off ty v) = true -> ty <> TStringLiteral /\ ty <> TComment.
@@ -298,7 +309,7 @@ Proof.
     + unfold tstart at 1. rewrite Hst. fold (lcpos pre).
       eapply pos_lt_le_trans; [apply lcpos_app_lt; exact Hne|exact C].
     + intro Ht. destruct (Htight Ht) as [-> Hpl].
-      eapply pos_le_trans; [|exact C]. unfold tend. rewrite Hend. rewrite (lcpos_plain _ _ Hpl).
+      eapply pos_le_trans; [|exact C]. unfold tend. rewrite Hend. rewrite (lcpos_plain_chars _ _ Hpl).
       unfold tstart. rewrite Hst. apply pos_le_refl.
   - constructor; [|exact Hf']. split; [exact Hok|]. split; [lia|].
     unfold tstart. rewrite Hst. apply pos_le_refl.
